@@ -85,7 +85,7 @@ def instrumented(rec):
         sdobjs[(repkey(self), step)] = self
         d0 = self._BodyFormula__data.get(step)
         had = d0 is not None and d0.literal is not None
-        op = [repkey(self), step, "tr", None, None]
+        op = [repkey(self), step, "tr", None, None, "enter", type(self).__name__, had]
         if sdcalls:
             sdcalls[-1]["ops"].append(op)
         if d0 is not None:
@@ -101,7 +101,7 @@ def instrumented(rec):
             sddepth[0] -= 1
             sdactive.pop()
         if sdcalls:
-            sdcalls[-1]["ops"].append([repkey(self), step, "tr", "had", lit])      # the end of `translate`: the todo list is treated
+            sdcalls[-1]["ops"].append([repkey(self), step, "tr", "had", lit, "exit"])      # the end of `translate`: the todo list is treated
         d1 = self._BodyFormula__data.get(step)
         op[3] = "had" if had else ("own" if getattr(d1, "_sd_own", False) else "assign")
         op[4] = lit
@@ -824,6 +824,109 @@ def theory_calls_chunk(args):
                 continue
             d = [{"layer": "L4-theory-call", "text": text, "what": "exception in the implementation: {}: {}".format(tl.classify_exc(e), str(e)[:200])}]
             st = {}
+        for k, v in st.items():
+            tot[k] = tot.get(k, 0) + v
+        tot["programs"] = tot.get("programs", 0) + 1
+        dis += d
+    return tot, dis
+
+
+# kinds of the model TelModel/TranslateRec.lean per class of telingo/theory/body.py
+REC_KIND = {"Atom": "leaf", "NumericLiteral": "leaf", "BooleanConstant": "leaf", "Negation": "alias", "Previous": "alias", "Initially": "alias",
+            "Next": "alias", "BooleanFormula": "op-recheck", "TelFormulaP": "op", "TelFormulaN": "op", "DiamondFormula": "early", "BoxFormula": "early"}
+
+def check_translate_recursion(text, H):
+    """
+    The hypotheses of the recursion model (`Graph.ok`, `Graph.rechecks`, the kind of every class) on a real run, from the recorded
+    nesting of `BodyFormula.translate` calls:
+      * every class met has a kind in the model; a box / diamond pair (`early`: literal first) is never entered again without a literal;
+      * the edges from pairs that wait for their operands (every class but box / diamond) to the pairs they translate meanwhile
+        form an acyclic relation (a rank exists);
+      * a pair that is entered again while it is being translated and has no literal yet is a Boolean connective
+        (`op` with the second look) — never a since / until pair, never a leaf or alias.
+    Returns (stats, disagreements).
+    """
+    res, rec = run(text, H)
+    dis, st = [], {"translate_calls": 0, "nested_edges": 0, "reentered_without_literal": 0, "early_pairs": 0}
+    edges = {}
+    def obj_has_literal(key):
+        f = rec["sd_objects"].get(key)
+        d = f._BodyFormula__data.get(key[1]) if f is not None else None
+        return d is not None and d.literal is not None
+    for c in rec["sd_calls"]:
+        stack = []                   # [key, class, had_literal_at_entry, first_nested_seen]
+        for op in c["ops"]:
+            if op[2] != "tr" or len(op) < 6:
+                continue
+            key = (op[0], op[1])
+            if op[5] == "enter":
+                st["translate_calls"] += 1
+                cls, had = op[6], op[7]
+                kind = REC_KIND.get(cls)
+                if kind is None:
+                    dis.append({"layer": "L4-recursion", "text": text, "what": "a formula class the recursion model has no kind for", "class": cls})
+                if stack:
+                    parent = stack[-1]
+                    if not parent[2]:
+                        pkind = REC_KIND.get(parent[1])
+                        if pkind != "early":
+                            edges.setdefault(parent[0], set()).add(key)
+                            st["nested_edges"] += 1
+                if not had and any(fr[0] == key and not fr[2] for fr in stack):
+                    # the pair is being translated further up and had no literal when that call started
+                    outer = [fr for fr in stack if fr[0] == key and not fr[2]][-1]
+                    if REC_KIND.get(outer[1]) == "early":
+                        dis.append({"layer": "L4-recursion", "text": text, "what": "a box / diamond pair is entered again without a literal (its literal should be set first)", "pair": list(key)})
+                    else:
+                        st["reentered_without_literal"] += 1
+                        if REC_KIND.get(cls) != "op-recheck":
+                            dis.append({"layer": "L4-recursion", "text": text, "what": "a pair that does not look again is entered a second time before it has a literal", "pair": list(key), "class": cls})
+                stack.append([key, cls, had, False])
+            else:
+                if stack and stack[-1][0] == key:
+                    fr = stack.pop()
+                    if REC_KIND.get(fr[1]) == "early" and not fr[2]:
+                        st["early_pairs"] += 1
+    # acyclicity of the operands-first edges (depth-first search)
+    color = {}
+    def dfs(u):
+        color[u] = 1
+        for v in edges.get(u, ()):
+            if color.get(v) == 1:
+                return [u, v]
+            if v not in color:
+                r = dfs(v)
+                if r:
+                    return r
+        color[u] = 2
+        return None
+    import sys as _sys
+    _sys.setrecursionlimit(max(_sys.getrecursionlimit(), 20000))
+    for u in list(edges):
+        if u not in color:
+            cyc = dfs(u)
+            if cyc:
+                dis.append({"layer": "L4-recursion", "text": text, "what": "the pairs that wait for their operands form a cycle (no rank exists: Graph.ok)",
+                            "edge": [list(cyc[0]), list(cyc[1])]})
+                break
+    return st, dis
+
+
+def recursion_chunk(args):
+    texts, H = args
+    tot, dis = {}, []
+    for text in texts:
+        try:
+            st, d = check_translate_recursion(text, H)      # `run_telingo` has its own time limit
+        except BaseException as e:  # noqa
+            if isinstance(e, KeyboardInterrupt):
+                raise
+            cls = tl.classify_exc(e)
+            if cls.startswith("Internal"):
+                # the model returns for every graph and never fails the assertion of add_literal
+                dis.append({"layer": "L4-recursion", "text": text, "what": "the step-wise translation ends with an internal error where the recursion model returns",
+                            "error": cls, "message": str(e)[:200]})
+            continue            # diagnostics and timeouts are not judged here
         for k, v in st.items():
             tot[k] = tot.get(k, 0) + v
         tot["programs"] = tot.get("programs", 0) + 1
